@@ -2,7 +2,7 @@
    recorded VM.refs (VerifRefs hook).  The model replays the script; compared are the counter before every
    instruction (mechanism), the outcome (state, gas, stack), and - the specification - that the counter the
    implementation showed is never below what an actual walk of the model state finds, and stays within the limit. *)
-From NG Require Import Common.Tactics Common.HarnessLib VM.Model VM.Reach VM.Static.
+From NG Require Import Common.Tactics Common.HarnessLib VM.Model VM.Reach VM.Static VM.Loader.
 From NG Require Export VM.Obs.
 Open Scope Z_scope.
 
@@ -16,21 +16,6 @@ Inductive case :=
 | CMulti (prog : list Z) (scripts : list (list Z)) (base limit_pico : Z) (fuel : positive) (refs : list Z) (impl : outcome)
 | CMethods (prog : list Z) (methods : list Z)
            (verdict : bool).        (* every method offset < len(script) and IsScriptCorrect(script, offsets) == nil *)
-
-Definition sys_load (scripts : list (list Z)) : syshandler := fun op p s =>
-  match op with
-  | SYSCALL =>
-      let k := from_le p in
-      if (k <? 1) || (zlen scripts <? k) then None
-      else match nth_error scripts (Z.to_nat (k - 1)) with
-           | Some prog =>
-               if MaxInvocationStackSize <=? depth s then None
-               else if Z.odd k then Some (load_script s prog (Z.to_N (k + 1)) 1)
-               else Some (load_script s prog 1%N (-1))
-           | None => None
-           end
-  | _ => None
-  end.
 
 (* replay: returns (mechanism ok so far, specification ok so far) and the final result *)
 Fixpoint replay_with (sys : syshandler) (fuel : nat) (s : state) (refs : list Z) (m sp : bool) : bool * bool * result :=
